@@ -151,6 +151,9 @@ func TestVerifC11Regroup(t *testing.T) {
 		var callers []*vC11GCaller
 		mode := "regroup-chain"
 		nc := 2 + r.Intn(7)
+		if os.Getenv("VERIF_TIER") == "thorough" {
+			nc = 2 + r.Intn(11) // chains of up to 11 failed leaders
+		}
 		recoverAt := -1
 		tmpl := r.Intn(4)
 		if c < len(corpus) {
